@@ -4,6 +4,9 @@
 //!   verif-replay bounded <PROPERTY>             -> exhaustive bounded cross-checks (thorough tier), prints counts
 mod oracle;
 use oracle::*;
+use pkgsrc::distinfo::{Distinfo, Entry, Checksum, DistinfoError};
+use pkgsrc::digest::Digest;
+use std::path::PathBuf;
 use pkgsrc::plist::{Plist, PlistEntry};
 use pkgsrc::summary::{Summary, SummaryStream};
 use std::io::Write;
@@ -733,6 +736,150 @@ fn search_c09(r: &mut Rng, iters: usize) -> bool {
     }
     true
 }
+fn real_dinfo(d: &Distinfo) -> DInfo {
+    let conv = |e: &&Entry| DEntry { name: e.filename.as_os_str().as_bytes().to_vec(), size: e.size,
+        sums: e.checksums.iter().map(|c| (c.digest.to_string(), c.hash.clone())).collect(), patch: e.filetype == pkgsrc::distinfo::EntryType::Patchfile };
+    DInfo { rcsid: d.rcsid().map(|s| s.as_bytes().to_vec()), dist: d.distfiles().iter().map(conv).collect(), patch: d.patchfiles().iter().map(conv).collect() }
+}
+const DNAMES: &[&[u8]] = &[b"foo-1.0.tar.gz", b"patch-aa", b"patch-local-x", b"emul-linux-patch-1", b"emul-patch-x", b"sub/dir/bar.tgz", b"foo\xc3\xa0bar", b"x\xc3\x85y",
+    b"x\xe9y", b"patch-src_caf\xe9.c", b"patch-ab.orig", b"patch-x.tar.y", b"a", b"a//b", b"a/b", b"lib(3).pdf", b"patch-zz~", b"\xa0", b"n\x85", b"patch-ac", b"proj/foo-1.0.tar.gz"];
+fn gen_dline(r: &mut Rng) -> Vec<u8> {
+    let name = r.pick(DNAMES);
+    let ws: [&[u8]; 4] = [b" ", b"  ", b"\t", b" \t "];
+    let lead: [&[u8]; 3] = [b"", b"  ", b"\t"];
+    let mut l = r.pick(&lead).to_vec();
+    match r.below(12) {
+        0 => l.extend_from_slice(b"# a comment (x) = y"),
+        1 => {}
+        2 => l.extend_from_slice(b"$NetBSD: distinfo,v 1.2 2024/01/01 00:00:00 x\xe9 Exp $"),
+        3 => l.extend_from_slice(r.pick(&[b"SHA1".as_slice(), b"SHA1 (foo)", b"Size (foo) = 12x bytes", b"CRC32 (foo) = 1234", b"SHA1 foo = abc", b"SHA1 (foo) XX abc", b"Size (foo) = -1 bytes", b"\xff\xfe (foo) = 1", b"SHA1 (foo = abc", b"=", b"SHA1 () = x"])),
+        4 | 5 => { l.extend_from_slice(b"Size"); l.extend_from_slice(r.pick(&ws)); l.push(b'('); l.extend_from_slice(name); l.push(b')'); l.extend_from_slice(r.pick(&ws)); l.push(b'='); l.extend_from_slice(r.pick(&ws));
+                   l.extend_from_slice(format!("{}", [0u64, 12, 4096, u64::MAX][r.below(4)]).as_bytes()); l.extend_from_slice(b" bytes"); }
+        _ => { let a = r.pick(&["SHA1", "sha256", "BLAKE2s", "RMD160", "MD5", "SHA512", "Sha1"]); l.extend_from_slice(a.as_bytes()); l.extend_from_slice(r.pick(&ws)); l.push(b'('); l.extend_from_slice(name); l.push(b')');
+               l.extend_from_slice(r.pick(&ws)); l.push(b'='); l.extend_from_slice(r.pick(&ws)); l.extend_from_slice(r.pick(&[b"abc123".as_slice(), b"00ff", b"deadbeef"])); }
+    }
+    l
+}
+fn search_c11(r: &mut Rng, iters: usize) -> bool {
+    for _ in 0..iters {
+        let mut t = vec![];
+        for _ in 0..r.below(9) { t.extend_from_slice(&gen_dline(r)); t.push(b'\n'); }
+        let e = distinfo_parse(&t);
+        let a = real_dinfo(&Distinfo::from_bytes(&t));
+        if e != a {
+            witness("distinfo_parse", &[("hextext", hex(&t))], &format!("{:?}", e), &format!("{:?}", a));
+            return false;
+        }
+    }
+    true
+}
+fn gen_canonical(r: &mut Rng) -> DInfo {
+    let mut d = DInfo::default();
+    if r.below(4) > 0 { d.rcsid = Some(b"$NetBSD: distinfo,v 1.80 2024/05/27 23:27:10 r\xe9 Exp $".to_vec()); }
+    let mut used: Vec<Vec<u8>> = vec![];
+    for _ in 0..r.below(5) {
+        let name = r.pick(DNAMES).to_vec();
+        if name.is_empty() || used.iter().any(|u| PathBuf::from(std::ffi::OsStr::from_bytes(u)) == PathBuf::from(std::ffi::OsStr::from_bytes(&name))) { continue; }
+        used.push(name.clone());
+        let patch = is_patch_name(&name);
+        let mut sums = vec![];
+        for a in DIGESTS { if r.below(2) == 0 { sums.push((a.to_string(), format!("{:x}", r.next()))); } }
+        if sums.is_empty() { sums.push(("SHA1".to_string(), "ab".to_string())); }
+        let e = DEntry { name, size: if patch { None } else { Some([0u64, 1, 77, u64::MAX][r.below(4)]) }, sums, patch };
+        if patch { d.patch.push(e) } else { d.dist.push(e) }
+    }
+    d
+}
+fn search_c10(r: &mut Rng, iters: usize) -> bool {
+    for _ in 0..iters {
+        let d = gen_canonical(r);
+        let text = distinfo_print(&d);
+        let parsed = Distinfo::from_bytes(&text);
+        let back = parsed.as_bytes();
+        if back != text {
+            witness("distinfo_roundtrip", &[("hextext", hex(&text))], &hex(&text), &hex(&back));
+            return false;
+        }
+        // API-assembled -> write -> parse
+        let mut api = Distinfo::new();
+        if let Some(rc) = &d.rcsid { api.set_rcsid(&OsString::from_vec(rc.clone())); }
+        for e in d.dist.iter().chain(d.patch.iter()) {
+            let sums: Vec<Checksum> = e.sums.iter().map(|(a, h)| Checksum::new(a.parse::<Digest>().unwrap(), h.clone())).collect();
+            let p = PathBuf::from(std::ffi::OsStr::from_bytes(&e.name));
+            api.insert(Entry::new(&p, &p, sums, e.size));
+        }
+        let written = api.as_bytes();
+        let re = real_dinfo(&Distinfo::from_bytes(&written));
+        let mut want = d.clone();
+        if want.rcsid.is_none() { want.rcsid = None; }
+        // the default "$NetBSD$" line is not an RcsId line ("$NetBSD: " prefix required): rcsid stays None on re-parse
+        if re.dist != want.dist || re.patch != want.patch || (want.rcsid.is_some() && re.rcsid != want.rcsid) {
+            witness("distinfo_api_roundtrip", &[("hextext", hex(&written))], &format!("{:?}", want), &format!("{:?}", re));
+            return false;
+        }
+    }
+    true
+}
+fn search_c12(r: &mut Rng, iters: usize) -> bool {
+    let dir = std::env::temp_dir().join(format!("verif-c12-{}", std::process::id()));
+    let _ = std::fs::create_dir_all(dir.join("proj"));
+    let mut ok = true;
+    'outer: for it in 0..(iters / 200).max(5) {
+        let content: Vec<u8> = match r.below(4) { 0 => vec![], 1 => b"hello\n".to_vec(), 2 => b"--- a\n+++ b\n$NetBSD: x $\n@@ x\n $NetBSD$ body\nline".to_vec(), _ => (0..r.below(300)).map(|_| r.next() as u8).collect() };
+        for (fname, sub) in [("foo-1.0.tar.gz", false), ("patch-aa", false), ("foo-1.0.tar.gz", true)] {
+            let rel = if sub { format!("proj/{}", fname) } else { fname.to_string() };
+            let path = dir.join(&rel);
+            std::fs::write(&path, &content).unwrap();
+            let is_patch = fname.starts_with("patch-");
+            let mut di = Distinfo::new();
+            let mut sums = vec![];
+            for a in DIGESTS {
+                let dg: Digest = a.parse().unwrap();
+                // patch hash (statement): plain hash of the input with every line containing "$NetBSD" removed,
+                // a final unterminated line counting as terminated -- computed here with the PLAIN hash only
+                let filtered: Vec<u8> = {
+                    let mut o = vec![];
+                    let mut lines: Vec<&[u8]> = content.split(|&c| c == b'\n').collect();
+                    if content.is_empty() || content.ends_with(b"\n") { lines.pop(); }
+                    for l in lines { if !l.windows(7).any(|w| w == b"$NetBSD") { o.extend_from_slice(l); o.push(b'\n'); } }
+                    o
+                };
+                let h = if is_patch { dg.hash_file(&mut &filtered[..]).unwrap() } else { dg.hash_file(&mut &content[..]).unwrap() };
+                sums.push(Checksum::new(dg, h));
+            }
+            // a longer recorded name sharing the tail, listed FIRST, must not win over the shorter one
+            if !sub && !is_patch { di.insert(Entry::new(format!("proj/{}", fname), format!("proj/{}", fname), vec![Checksum::new(Digest::SHA1, "00".into())], Some(1))); }
+            let corrupt = it % 3;
+            let mut rec = sums.iter().map(|c| Checksum::new(c.digest, c.hash.clone())).collect::<Vec<_>>();
+            if corrupt == 1 { let h = &mut rec[r.below(6)].hash; let c = if h.ends_with('0') { '1' } else { '0' }; h.pop(); h.push(c); }
+            let recsize = if corrupt == 2 { content.len() as u64 + 1 } else { content.len() as u64 };
+            if sub {
+                // both `proj/NAME` (listed first, bogus values) and `NAME` are recorded: the SHORTEST trailing sub-path must be used
+                di.insert(Entry::new(&rel, &rel, vec![Checksum::new(Digest::SHA1, "00".into())], Some(recsize + 7)));
+                di.insert(Entry::new(fname, fname, rec, Some(recsize)));
+            } else {
+                di.insert(Entry::new(&rel, &rel, rec, if is_patch { None } else { Some(recsize) }));
+            }
+            if !is_patch {
+                let e: Result<u64, String> = if corrupt == 2 { Err(format!("Size({},{})", recsize, content.len())) } else { Ok(recsize) };
+                let a = match di.verify_size(&path) { Ok(n) => Ok(n), Err(DistinfoError::Size(_, x, y)) => Err(format!("Size({},{})", x, y)), Err(o) => Err(format!("{:?}", o)) };
+                if e != a { witness("verify_size", &[("file", rel.clone()), ("hexcontent", hex(&content)), ("recorded", recsize.to_string())], &format!("{:?}", e), &format!("{:?}", a)); ok = false; break 'outer; }
+            } else if !matches!(di.verify_size(&path), Err(DistinfoError::MissingSize(_))) {
+                witness("verify_size", &[("file", rel.clone()), ("hexcontent", hex(&content)), ("recorded", "none".into())], "MissingSize", "other"); ok = false; break 'outer;
+            }
+            let res = di.verify_checksums(&path);
+            for (k, rr) in res.iter().enumerate() {
+                let good = di.find_entry(&path).map(|e| e.checksums[k].hash == sums[k].hash).unwrap_or(false);
+                let fine = match rr { Ok(d) => good && *d == sums[k].digest, Err(DistinfoError::Checksum(_, d, exp, act)) => !good && *d == sums[k].digest && *act == sums[k].hash && *exp != sums[k].hash, _ => false };
+                if !fine { witness("verify_checksum", &[("file", rel.clone()), ("hexcontent", hex(&content)), ("algo", DIGESTS[k].into()), ("corrupt", corrupt.to_string())], "Ok iff recorded == digest", &format!("{:?}", rr)); ok = false; break 'outer; }
+            }
+            if res.len() != 6 { witness("verify_checksum", &[("file", rel.clone()), ("hexcontent", hex(&content)), ("algo", "all".into()), ("corrupt", corrupt.to_string())], "6 results", &res.len().to_string()); ok = false; break 'outer; }
+            if !matches!(di.verify_size(dir.join("nope/zzz")), Err(DistinfoError::NotFound)) { witness("verify_size", &[("file", "nope/zzz".into()), ("hexcontent", "".into()), ("recorded", "".into())], "NotFound", "other"); ok = false; break 'outer; }
+        }
+    }
+    let _ = std::fs::remove_dir_all(&dir);
+    ok
+}
 fn unhexb(s: &str) -> Vec<u8> {
     (0..s.len() / 2).map(|i| u8::from_str_radix(&s[2 * i..2 * i + 2], 16).unwrap()).collect()
 }
@@ -777,6 +924,8 @@ fn run_witness(args: &[String]) -> i32 {
             chunks.push(&bytes[prev..]);
             format!("{:?}", stream_run(&chunks))
         }
+        "distinfo_parse" | "distinfo_api_roundtrip" => format!("{:?}", real_dinfo(&Distinfo::from_bytes(&unhexb(&g("hextext"))))),
+        "distinfo_roundtrip" => hex(&Distinfo::from_bytes(&unhexb(&g("hextext"))).as_bytes()),
         "plist_entry" => format!("{:?}", PlistEntry::from_bytes(&unhexb(&g("hexline"))).ok()),
         "plist" => format!("{:?}", Plist::from_bytes(&unhexb(&g("hextext"))).ok().map(|p| format!("{:?}", p))),
         "plist_views" => match Plist::from_bytes(&unhexb(&g("hextext"))) {
@@ -837,6 +986,9 @@ fn main() {
                 "C06" => search_c06(&mut r, la, iters),
                 "C18" => search_c18(&mut r, la, iters),
                 "C14" => search_c14(&mut r, iters),
+                "C10" => search_c10(&mut r, iters),
+                "C11" => search_c11(&mut r, iters),
+                "C12" => search_c12(&mut r, iters),
                 "C07" => search_c07(&mut r, iters),
                 "C08" => search_c08(&mut r, iters),
                 "C09" => search_c09(&mut r, iters),
